@@ -23,15 +23,15 @@ pub static DEF: PropertyDef = PropertyDef {
            entropy seed must give byte-identical output. The run is repeated in the dev-profile build and the per-run digests compared. \
            Non-trivial = the program has a list value with >= 2 items or >= 2 flows or >= 2 globals in the save; distinct = hash of program+history.",
     assumptions: &["story seed fixed through the guarded seed hook", "the order in which observers of different variables are notified within one continue is not part of the property"],
-    runs_quick: 4000,
+    runs_quick: 2000,
     runs_thorough: 60000,
     exhaustive_note: "none (K entropy seeds per sampled case)",
     generate,
     execute,
-    must_hit: &["fault.entropy.compared", "fault.entropy.list_program", "fault.entropy.compile_compared", "fault.entropy.map_order_differed"],
+    must_hit: &["fault.entropy.warm_thread_compared", "fault.entropy.compared", "fault.entropy.list_program", "fault.entropy.compile_compared", "fault.entropy.map_order_differed"],
     timeout_s: 60,
     hang_class: None,
-    sub_builds: &[("dev", 1000, 10000, true)],
+    sub_builds: &[("dev", 600, 10000, true)],
     stack_mb: 64,
 };
 
@@ -64,6 +64,7 @@ fn generate(corpus: &Corpus, tier: Tier, run: u64, rng: &mut Rng) -> Option<Case
         resets: rng.chance(1, 8),
         continue_max: rng.chance(1, 3),
         jump_functions: false,
+        eval_any_knot: false,
     };
     let ops = gen_script(rng, &prog, &cfg);
     let host = default_host(&prog, rng);
@@ -113,6 +114,9 @@ fn trace(case: &Case) -> Vec<String> {
         }
         let o = h.observe();
         let save = h.save_text().ok().and_then(|s| serde_json::from_str::<serde_json::Value>(&s).ok()).map(|j| canon(&j)).unwrap_or_default();
+        if std::env::var("VERIF_TRACE").is_ok() {
+            eprintln!("TRACE op {i} save {save}");
+        }
         t.push(format!("op {i} {} -> {} | {:?} | save {:016x}", op.short(), r.class(), o, crate::rng::fnv(&save)));
         if r.is_panic() {
             break;
@@ -122,6 +126,135 @@ fn trace(case: &Case) -> Vec<String> {
         t.push(format!("ev {e}"));
     }
     t
+}
+
+/// The same case on a thread that has already created, played and dropped other stories
+/// ("in the same process"): nothing may carry over from earlier instances - no cache keyed by an
+/// address, no thread-local left behind.
+fn warm_trace(case: &Case) -> Vec<String> {
+    // (1) the same program with every knot renamed (k3 -> q3): same allocation pattern, other
+    // paths. Played with the same ops and dropped, it leaves behind whatever an implementation
+    // wrongly keeps per address or per thread - at the addresses the real run is about to reuse.
+    let renamed = rename_knots(&case.program.json);
+    if let Some(p) = Program::from_json("renamed", "warm-up", None, renamed)
+        && let Ok(mut h) = Host::new(&p, &case.host)
+    {
+        for op in &case.ops {
+            let op2 = match op {
+                Op::Jump { path, reset, args } => Op::Jump { path: rename_knots(path), reset: *reset, args: args.clone() },
+                other => other.clone(),
+            };
+            h.apply(&op2);
+            if !h.alive() {
+                break;
+            }
+        }
+    }
+    // (2) a few unrelated stories
+    let mut r = Rng::new(mix(case.hash_seed, "C03-warm", 0));
+    let mut g = crate::inkgen::GenCfg::general();
+    g.lists = true;
+    g.list_ties = true;
+    g.random = true;
+    g.shuffles = true;
+    g.sequences = true;
+    g.fixed = true;
+    for _ in 0..3 {
+        g.knots = 1 + r.below(3);
+        g.stmts = 2 + r.below(5);
+        if let Some(p) = crate::inkgen::generate(&mut r, &g)
+            && let Ok(mut h) = Host::new(&p, &HostCfg { handler: true, fallbacks: true, ..Default::default() })
+        {
+            for _ in 0..8 {
+                h.apply(&Op::Continue);
+                h.apply(&Op::Choose(r.below(3) as u32));
+            }
+        }
+    }
+    // (3) the renamed copy once more, so that it is the most recently freed instance
+    let renamed = rename_knots(&case.program.json);
+    if let Some(p) = Program::from_json("renamed", "warm-up", None, renamed)
+        && let Ok(mut h) = Host::new(&p, &case.host)
+    {
+        for op in &case.ops {
+            let op2 = match op {
+                Op::Jump { path, reset, args } => Op::Jump { path: rename_knots(path), reset: *reset, args: args.clone() },
+                other => other.clone(),
+            };
+            h.apply(&op2);
+            if !h.alive() {
+                break;
+            }
+        }
+    }
+    trace(case)
+}
+
+/// `k<digits>` -> `q<digits>` (same length, so the same allocation sizes) wherever it stands as a
+/// whole identifier (keys, divert targets, paths).
+fn rename_knots(s: &str) -> String {
+    let b: Vec<char> = s.chars().collect();
+    let mut out = String::with_capacity(s.len() + 64);
+    let mut i = 0;
+    while i < b.len() {
+        let prev_ok = i == 0 || !(b[i - 1].is_alphanumeric() || b[i - 1] == '_');
+        if b[i] == 'k' && prev_ok && i + 1 < b.len() && b[i + 1].is_ascii_digit() {
+            let mut j = i + 1;
+            while j < b.len() && b[j].is_ascii_digit() {
+                j += 1;
+            }
+            let next_ok = j >= b.len() || !(b[j].is_alphanumeric() || b[j] == '_');
+            if next_ok {
+                out.push('q');
+                out.extend(&b[i + 1..j]);
+                i = j;
+                continue;
+            }
+        }
+        out.push(b[i]);
+        i += 1;
+    }
+    out
+}
+
+/// Body of the `c03-warm` child process: fresh-thread trace vs warm-thread trace.
+pub fn warm_child(case: &Case) -> serde_json::Value {
+    let strip = |t: &Vec<String>| -> Vec<String> { t.iter().filter(|l| !l.starts_with("#maporder")).cloned().collect() };
+    let c1 = case.clone();
+    let fresh = match run_case_thread(case.hash_seed, case.story_seed, case.fuel, 50, 64, move || trace(&c1)) {
+        Ok(t) => strip(&t),
+        Err(_) => return json!({"same": true, "note": "timeout"}),
+    };
+    // several rounds on one thread: every round frees a renamed instance and then builds the real
+    // one, each time with a different permutation of recycled addresses
+    let c2 = case.clone();
+    let fresh2 = fresh.clone();
+    let warm = match run_case_thread(case.hash_seed, case.story_seed, case.fuel * 24, 55, 64, move || {
+        let mut last = Vec::new();
+        for round in 0..6 {
+            // a few live allocations of odd sizes shift the allocator's free lists between rounds
+            let _shift: Vec<Vec<u8>> = (0..round * 3).map(|k| vec![0u8; 24 + 16 * k]).collect();
+            let t: Vec<String> = warm_trace(&c2).into_iter().filter(|l| !l.starts_with("#maporder")).collect();
+            if t != fresh2 {
+                return t;
+            }
+            last = t;
+        }
+        last
+    }) {
+        Ok(t) => t,
+        Err(_) => return json!({"same": true, "note": "timeout"}),
+    };
+    if fresh == warm || fresh.iter().chain(warm.iter()).any(|l| l == "#fuel") {
+        return json!({"same": true});
+    }
+    let i = fresh.iter().zip(warm.iter()).position(|(a, b)| a != b).unwrap_or(fresh.len().min(warm.len()));
+    let a = fresh.get(i).cloned().unwrap_or_else(|| "<end>".into());
+    let b = warm.get(i).cloned().unwrap_or_else(|| "<end>".into());
+    let common = a.chars().zip(b.chars()).take_while(|(x, y)| x == y).count();
+    let from = common.saturating_sub(120);
+    let cut = |x: &str| x.chars().skip(from).take(420).collect::<String>();
+    json!({"same": false, "field": field_of(&a, &b), "op": a.split(" -> ").next().unwrap_or(""), "fresh": cut(&a), "warm": cut(&b)})
 }
 
 fn execute(case: &Case) -> CaseResult {
@@ -182,6 +315,31 @@ fn execute(case: &Case) -> CaseResult {
     }
     if order_differed {
         res.stats.inc("fault.entropy.map_order_differed");
+    }
+    // ---- same entropy, but on a thread with a history of other (dropped) stories. Whether a freed
+    // address is reused depends on the whole allocation history of the process, so this comparison
+    // runs in a child process of its own: from process start the allocation sequence - and with it
+    // every address coincidence - is a function of the case alone, and replays exactly.
+    if res.violations.is_empty() {
+        let dir = crate::engine::out_dir().join("work");
+        let _ = std::fs::create_dir_all(&dir);
+        let f = dir.join(format!("c03-{}-{}.json", std::process::id(), case.run));
+        if std::fs::write(&f, serde_json::to_vec(case).unwrap_or_default()).is_ok() {
+            let out = std::process::Command::new(std::env::current_exe().unwrap()).args(["c03-warm", f.to_str().unwrap()]).stdin(std::process::Stdio::null()).output();
+            let _ = std::fs::remove_file(&f);
+            if let Ok(out) = out
+                && let Ok(j) = serde_json::from_slice::<serde_json::Value>(&out.stdout)
+            {
+                res.stats.inc("fault.entropy.warm_thread_compared");
+                if j["same"].as_bool() == Some(false) {
+                    res.fail(Violation::new("C03", "history-divergence", "fresh thread vs thread with earlier stories", j["field"].as_str().unwrap_or("trace")).with(
+                        format!("{}; entropy seed {}", j["op"].as_str().unwrap_or(""), case.hash_seed),
+                        j["fresh"].as_str().unwrap_or("").to_string(),
+                        j["warm"].as_str().unwrap_or("").to_string(),
+                    ));
+                }
+            }
+        }
     }
     if base.iter().any(|l| l.starts_with("compile ")) {
         res.stats.inc("fault.entropy.compile_compared");
